@@ -731,6 +731,24 @@ class Flow:
         want = ".into_iter().filter_map(|mutu|{if!u.ends_with('/'){u.push('/');}Url::parse(&u).ok()}).collect()"
         return ("UnAppendSlash" if text == want else "UnUnknown"), text[:300]
 
+    def redirect_parse(self):
+        """how individual_lookup_debug_info_by_code_info takes the debug file / id out of the Location header, as normalised text"""
+        cands = [f for f in self.fns if f.label == "http.rs" and f.name == "individual_lookup_debug_info_by_code_info"]
+        if len(cands) != 1:
+            return "RpUnknown", "no unique fn individual_lookup_debug_info_by_code_info in http.rs"
+        body = cands[0].body()
+        a = body.find("let location_header")
+        b = body.find("debug!", a if a >= 0 else 0)
+        if a < 0 or b < 0:
+            return "RpUnknown", "the Location handling of individual_lookup_debug_info_by_code_info was not found"
+        text = norm(body[a:b])
+        want = ('letlocation_header=res.headers().get("Location")?;letmutnew_url=location_header.to_str().ok()?;'
+                "ifnew_url.starts_with('/'){new_url=new_url.strip_prefix('/').unwrap_or(new_url);}"
+                "letmutparts=new_url.rsplit('/');letdebug_identifier_part=parts.nth(1)?;"
+                "letdebug_identifier=DebugId::from_str(debug_identifier_part).ok()?;letdebug_file_part=parts.next()?;"
+                "letdebug_file=String::from(debug_file_part);")
+        return ("RpStripSlashRsplitNth1Next" if text == want else "RpUnknown"), text[:400]
+
     def sites(self):
         out = []
         for label, src in self.srcs.items():
@@ -823,6 +841,10 @@ def main():
     o += ["", "(* http.rs HttpSymbolSupplier::new: the closure applied to every server URL string *)",
           'Definition g_server_url_norm_text : string := "%s".' % norm_text.replace('"', '""'),
           "Definition g_server_url_norm : g_url_norm := %s." % norm_kind]
+    rp_kind, rp_text = fl.redirect_parse()
+    o += ["", "(* http.rs individual_lookup_debug_info_by_code_info: from the Location header to (debug file, debug id) *)",
+          'Definition g_redirect_parse_text : string := "%s".' % rp_text.replace('"', '""'),
+          "Definition g_redirect_parse : g_redirect_parse_kind := %s." % rp_kind]
     o += ["", "(* the same table without Coq strings (fn name as bytes), for the extracted driver *)",
           "Definition g_flow_table : list (list Z * g_root * g_arg) := ["]
     o.append(";\n".join("  ([%s]%%Z, %s, %s)   (* %s *)" % ("; ".join(str(x) for x in b.encode()), strip(r), strip(g), b) for a, b, c, r, g in sites))
